@@ -52,7 +52,7 @@ type TLCOpts struct {
 	Workers   int
 	Timeout   time.Duration
 	HeapMB    int
-	Extra     []string // extra TLC args (e.g. -simulate ...)
+	Extra     []string     // extra TLC args (e.g. -simulate ...)
 	LineSink  func(string) // optional streaming consumer of PrintT lines
 	KeepLines bool
 	DFS       bool
